@@ -144,7 +144,9 @@ def scene_case(spec):
         diag = float(np.linalg.norm(verts.max(axis=0) - verts.min(axis=0)))
         cfg = dict(dims=(verts.max(axis=0) - verts.min(axis=0)).tolist(), att=att)
     else:
-        cfg = S.draw_config(rng, nb=nb, multi_dir=multi, random_tables=rand_t, max_patches=spec["max_patches"])
+        ua = float(np.round(rng.uniform(0.1, 0.6), 2)) if (spec["idx"] % 4 == 0 and not rand_t) else None
+        cfg = S.draw_config(rng, nb=nb, multi_dir=multi, random_tables=rand_t, max_patches=spec["max_patches"],
+                            uniform_alpha=ua)       # one material for all walls: one data object, six calls
         radi = S.build(cfg)
         src = S.draw_inside(rng, cfg["dims"])
         shape = "shoebox"
